@@ -264,6 +264,8 @@ func (g *Gen) quirks(p *ps.Program) {
 		p.Quirk = "timealias"
 	case r < 26 && p.Kind == "flow" && len(p.Params) >= 2:
 		p.Quirk = "params2"
+	case r < 40 && p.Kind == "flow" && len(p.Results) >= 2:
+		p.Quirk = "results2" // the Results targets split over two cff.Results options
 	}
 }
 
@@ -274,7 +276,7 @@ func IsModSubset(p *ps.Program) bool {
 		return false
 	}
 	switch p.Quirk {
-	case "", "timealias", "params2":
+	case "", "timealias", "params2", "results2":
 	default:
 		return false
 	}
@@ -795,7 +797,7 @@ func (g *Gen) freshTypeExcluding(p *ps.Program, ex []int) (int, bool) {
 func (g *Gen) MutatedFlow(pid int, kind string) *ps.Program {
 	for tries := 0; tries < 200; tries++ {
 		p := g.WellFormedFlow(pid)
-		if p.Quirk == "params2" || p.Quirk == "invokevar" {
+		if p.Quirk == "params2" || p.Quirk == "results2" || p.Quirk == "invokevar" {
 			p.Quirk = ""
 		}
 		if g.Mutate(p, kind) {
@@ -898,6 +900,16 @@ func (g *Gen) ParallelProgram(pid int) *ps.Program {
 			if g.chance(endChance) {
 				m.End, m.EndCtx, m.EndErr = true, g.chance(40), g.chance(60)
 			}
+		}
+	}
+	// element function and End function disagreeing on "returns an error": the End function's
+	// result must be handled according to its own signature
+	if p.COE == "" && g.chance(30) {
+		for _, s := range p.Slices {
+			s.End, s.EndErr, s.Err = true, true, false
+		}
+		for _, m := range p.Maps {
+			m.End, m.EndErr, m.Err = true, true, false
 		}
 	}
 	if g.chance(45) {
